@@ -165,6 +165,8 @@ class WriteBack(Harness):
                         out.append(dict(f, file=name, prog=p, replace=col, touch_after=[other, col], assign=assign))
                     out.append(dict(f, file=name, prog=p, replace=col, touch_parent=[other], touch=[col], assign=True))
                     out.append(dict(f, file=name, prog=p, replace=None, touch=[other, col]))
+                    # branching history: a replace() copy is made (and written), then the UNTOUCHED source selection is written
+                    out.append(dict(f, file=name, prog=p, replace=col, then_source=True))
             # histories: a first selection is written, then the SAME parent table is used again
             pairs = [("tail", "all"), ("step", "tail"), ("rev", "fixed"), ("mask", "rev")]
             if tier == "thorough":
@@ -208,6 +210,7 @@ class WriteBack(Harness):
         m = len(sel)
         for fld in skel.get("touch", []):
             getattr(sel, fld)                      # parses and caches the field on the lazy object
+        source = sel
         if skel["replace"]:
             values = ctx.arr([x[f"new{j}"] for j in range(m)], "int64")
             if skel.get("assign"):
@@ -219,6 +222,11 @@ class WriteBack(Harness):
         f = ctx.wfile()
         NpBufferedWriter(f, B).write(sel)
         res = dict(bytes=ctx.file_bytes(f), log=log, m=m)
+        if skel.get("then_source"):
+            # branching history: the replace() copy has been made and written; the source selection itself was not replaced
+            fs = ctx.wfile()
+            NpBufferedWriter(fs, B).write(source)
+            res["source_bytes"] = ctx.file_bytes(fs)
         if skel.get("then"):
             log2 = []
             sel2 = run_program(PROGRAMS[skel["then"]["prog"]], table, x, ctx, n, log2, counter)
@@ -239,6 +247,9 @@ class WriteBack(Harness):
         if isinstance(out, Exc):
             return out.type == "IndexError" and "harness" in out.msg      # program not applicable to this selection size
         first = self._post_one(skel, x, out)
+        if first is not False and "source_bytes" in out:
+            src = self._post_one(dict(skel, replace=None), x, dict(out, bytes=out["source_bytes"]))
+            first = False if src is False else z3.And(first, src)
         if first is False or "then" not in out:
             return first
         second = self._post_one(dict(skel, prog=skel["then"]["prog"], replace=skel["then"]["replace"]), x, out["then"])
@@ -295,6 +306,10 @@ class WriteBack(Harness):
                 return None
             return f"raised {cout}"
         r = self._oracle_one(skel, cx, cout)
+        if r is None and "source_bytes" in cout:
+            r = self._oracle_one(dict(skel, replace=None), cx, dict(cout, bytes=cout["source_bytes"]))
+            if r is not None:
+                r = f"after a replace() copy of the selection was made and written, the untouched selection itself: " + r
         if r is None and "then" in cout:
             r = self._oracle_one(dict(skel, prog=skel["then"]["prog"], replace=skel["then"]["replace"]), cx, cout["then"])
             if r is not None:
@@ -321,4 +336,12 @@ class WriteBack(Harness):
         return None
 
 
-HARNESSES = [WriteBack()]
+from checks.C16 import WriteBack as _BamWriteBack
+
+
+class BamWriteBack(_BamWriteBack):
+    """BAM records written back byte for byte (the C16 write-back harness under its C04 name)"""
+    name = "bam_writeback"
+
+
+HARNESSES = [WriteBack(), BamWriteBack()]
